@@ -856,4 +856,60 @@ theorem coup_net {tl : Bool} {addr : Nat} {w w' : NW tl} {d : List Nat} {op : Op
                 refine ⟨rfl, fun hu => ⟨by simp [hcr], p, hs, ?_, rfl⟩⟩
                 exact Classical.byContradiction fun hpu => hnu hpu hu
 
+/-! ### runs -/
+
+theorem coup_step {tl : Bool} {addr : Nat} {w w' : NW tl} {m : NMove} (hc : Coup addr w)
+    (hok : ∀ d op, m = .net d op → opOk w.net op = true) (h : nwStep addr w m = some w') : Coup addr w' := by
+  cases m with
+  | remCall d c => exact coup_remote (Or.inl ⟨d, c, rfl⟩) hc h
+  | toRemote i d alt => exact coup_remote (Or.inr (Or.inl ⟨i, d, alt, rfl⟩)) hc h
+  | advance dt => exact coup_remote (Or.inr (Or.inr ⟨dt, rfl⟩)) hc h
+  | toNet i d alt => exact coup_toNet hc h
+  | net d op => exact coup_net hc (hok d op rfl) h
+
+theorem coup_run {tl : Bool} {addr : Nat} (sched : List NMove) : ∀ (w w' : NW tl), Coup addr w →
+    nwOk addr w sched = true → nwRun addr w sched = some w' → Coup addr w' := by
+  induction sched with
+  | nil => intro w w' hc _ h; simp [nwRun] at h; rw [← h]; exact hc
+  | cons m ms ih =>
+    intro w w' hc hok h
+    simp only [nwRun] at h
+    simp only [nwOk, Bool.and_eq_true] at hok
+    cases hs : nwStep addr w m with
+    | none => simp [hs] at h
+    | some w1 =>
+      simp only [hs] at h hok
+      refine ih w1 w' (coup_step hc ?_ hs) hok.2 h
+      intro d op hm
+      subst hm
+      exact hok.1
+
+/-- the ghost world runs the image of the schedule -/
+theorem ghost_run {tl : Bool} {addr : Nat} (sched : List NMove) : ∀ (w w' : NW tl),
+    nwRun addr w sched = some w' → NetSim.run w.g (ghostSched addr w sched) = some w'.g := by
+  induction sched with
+  | nil => intro w w' h; simp [nwRun] at h; rw [← h]; rfl
+  | cons m ms ih =>
+    intro w w' h
+    simp only [nwRun] at h
+    cases hs : nwStep addr w m with
+    | none => simp [hs] at h
+    | some w1 =>
+      simp only [hs] at h
+      obtain ⟨net1, r, o, g1, _, _, hg, hw⟩ := nwStep_some hs
+      have hg1 : w1.g = g1 := by rw [hw]
+      simp only [ghostSched, hs]
+      unfold ghostStep at hg
+      cases hgm : ghostMove tl addr w m with
+      | none =>
+        simp only [hgm, Option.some.injEq] at hg
+        simp only [List.nil_append]
+        rw [hg, ← hg1]
+        exact ih w1 w' h
+      | some gm =>
+        simp only [hgm] at hg
+        simp only [List.cons_append, List.nil_append, NetSim.run, hg]
+        rw [← hg1]
+        exact ih w1 w' h
+
 end Tw.NetC01
